@@ -1,5 +1,5 @@
 """developer tool: run a property's sweep serially-in-pool and group violations by (klass, slice shape) signature"""
-import sys, json, collections, re
+import sys, os, json, collections, re
 from concurrent.futures import ProcessPoolExecutor
 from mc import engine
 
@@ -23,7 +23,8 @@ if __name__ == "__main__":
             for case, detail, klass in res:
                 k = sig(case, detail, klass) if sig else (klass, re.sub(r"[-0-9.]+", "#", detail)[:80])
                 groups[k].append((case, detail))
-    for k, v in sorted(groups.items(), key=lambda kv: -len(kv[1])):
+    print("groups:", len(groups), "violations:", sum(len(v) for v in groups.values()))
+    for k, v in sorted(groups.items(), key=lambda kv: -len(kv[1]))[:int(os.environ.get("TRIAGE_GROUPS", "14"))]:
         print(len(v), k)
         for case, detail in v[:int(sys.argv[3]) if len(sys.argv) > 3 else 1]:
             print("     ", json.dumps(case, default=engine._jdefault)[:260]); print("     ", detail[:260])
